@@ -177,6 +177,7 @@ const preludeCore = `(declare-sort Str 0)
 (declare-fun sl_len (Slc) Int)
 (declare-fun sl_cap (Slc) Int)
 (declare-fun slc.nil () Slc)
+(assert (forall ((s Slc)) (! (>= (sl_len s) 0) :pattern ((sl_len s)))))
 (assert (and (= (sl_arr slc.nil) 0) (= (sl_off slc.nil) 0) (= (sl_len slc.nil) 0) (= (sl_cap slc.nil) 0)))
 (declare-fun dyntype (Int) Int)
 (declare-fun atime (Int) Int)
